@@ -2,11 +2,12 @@ CONSTANTS
   NameSeq <- N2
   Slots = {1, 2}
   MaxNodes = 8
-  MaxDepth = 4
+  MaxDepth = 2
   Actions <- LetActions
   InitDeclared = 2
-INIT Init
-NEXT Next
+CONSTANT BuildFuns <- FunsD
+INIT Init2
+NEXT NextB
 CONSTRAINT Bound
 INVARIANT InvCanonical
 INVARIANT InvDenInjective
